@@ -13,11 +13,11 @@ template <class Policy, class Probe, bool Store> struct ck_traits : cc::cuckoo::
 };
 template <class S> void ck_probes(Ctx& c, S& s) { auto const& st = s.statistics(); c.probe("cuckoo_relocate_calls", (long)st.m_nRelocateCallCount.get()); c.probe("cuckoo_resize_calls", (long)st.m_nResizeCallCount.get()); c.probe("cuckoo_relocate_rounds", (long)st.m_nRelocateRoundCount.get()); c.probe("cuckoo_insert_resize", (long)st.m_nInsertResizeCount.get()); }
 typedef Cfg<CAPS_BASIC, false, false, false> C_lock;
-template <class S> struct CkSet : SetA<cds::gc::nogc, S, C_lock> {
+template <class S> struct CkSet : SetA<cds::gc::nogc, S, C_lock> { static const bool exclusive_functors = true;
     explicit CkSet(const Program& p) { this->s.reset(new S((size_t)p.knob("initial_size", 2), (unsigned)p.knob("probeset", 2), (unsigned)p.knob("threshold", 0))); }
     void probes(Ctx& c) { ck_probes(c, *this->s); }
 };
-template <class M> struct CkMap : MapA<cds::gc::nogc, M, C_lock> {
+template <class M> struct CkMap : MapA<cds::gc::nogc, M, C_lock> { static const bool exclusive_functors = true;
     explicit CkMap(const Program& p) { this->s.reset(new M((size_t)p.knob("initial_size", 2), (unsigned)p.knob("probeset", 2), (unsigned)p.knob("threshold", 0))); }
     void probes(Ctx& c) { ck_probes(c, *this->s); }
 };
